@@ -13,7 +13,7 @@ inductive SrcFile where
 
 inductive Guard where
   | notDryRun | dryRun | optReset | optBackup | cleanupStandard | cleanupAggressive
-  | optSensitive | notSensitive | optWriteReport | other
+  | optSensitive | notSensitive | optWriteReport | modeFilter | modeAnalyze | other
   deriving DecidableEq, Repr
 
 inductive GitSub where
@@ -29,6 +29,13 @@ inductive ArgTag where
   | batch | lit | showArg | expireArg
   deriving DecidableEq, Repr
 
+/-- how the command's stderr is set up: `dflt` = inherited, `quiet` = `Stdio::null()`/`Stdio::inherit()` (possibly chosen by an
+    `if`), `piped`, `wrapped` = the command is handed to another function of the same file that sets the pipes up (audited by
+    hand), `dyn` = any other expression (a helper call, a variable) -/
+inductive StderrMode where
+  | dflt | quiet | piped | wrapped | dyn
+  deriving DecidableEq, Repr
+
 structure GitCmd where
   file : SrcFile
   line : Nat
@@ -36,6 +43,8 @@ structure GitCmd where
   tags : List ArgTag
   stdinPiped : Bool
   stdoutPiped : Bool
+  stderr : StderrMode := .dflt
+  viaOutput : Bool := false    -- run with `.output()`, which drains stdout and stderr
   usesThread : Bool := false   -- the enclosing function spawns a thread
   guards : List Guard
   deriving DecidableEq, Repr
@@ -245,8 +254,37 @@ def auditedBothPiped : List (SrcFile × GitSub × Bool) :=
     (the shape of finding F7). -/
 def auditedReaderBreaks : List (SrcFile × Nat) := [(.detect, 1), (.finalize, 2), (.stream, 1)]
 
+/-- **C17**: no child can block on a stderr pipe nobody reads: stderr is inherited, null, or piped and drained by `.output()`;
+    the audited exceptions are children whose piped stderr is read after they exited and that write at most an error message -/
+def stderrNeverBlocks (audited : List (SrcFile × GitSub)) (wrappedIn : List SrcFile) (cs : List GitCmd) : Bool :=
+  cs.all fun c => match c.stderr with
+    | .dflt | .quiet => true
+    | .piped => c.viaOutput || audited.contains (c.file, c.sub)
+    | .wrapped => wrappedIn.contains c.file
+    | .dyn => false
+
+/-- piped stderr that is not drained by `.output()`: detect.rs `cat-file --batch[-check]` ×2 (never read; cat-file reports a
+    missing object on stdout and writes to stderr only when it dies), stream.rs `cat-file --batch-all-objects` (read to the end
+    after stdout reached EOF; same remark). sanity.rs hands its commands to `execute_with_timeout`, which pipes stdout and
+    stderr, polls for the exit and reads both afterwards: a child writing more than a pipe buffer is killed after the
+    timeout and the pre-flight fails with "Command timed out" — bounded, and only reachable on repositories the pre-flight
+    refuses anyway (observation, see DESIGN.md) -/
+def auditedPipedStderr : List (SrcFile × GitSub) := [(.detect, .catFile), (.stream, .catFile)]
+def auditedWrapped : List SrcFile := [.sanity]
+
 def readOnlyIn (f : SrcFile) (cs : List GitCmd) : Bool :=
   (cs.filter fun c => c.file == f).all fun c => !c.mutates
+
+/-- **C19/C20**: the dispatcher: everything `run` calls besides the analysis and the secret scan is confined to filtering mode
+    (a `Mode::Filter` match arm or an `if opts.mode == Mode::Filter`), and the analysis itself to `Mode::Analyze` -/
+def ModesSeparated (evs : List Event) : Bool :=
+  evs.all fun e => match e with
+    | .call .detectRun _ => true
+    | .call .analysisRun g => g.contains .modeAnalyze
+    | .call _ g => g.contains .modeFilter
+    | .git c => c.guards.contains .modeFilter
+    | .fileCreate _ g => g.contains .modeFilter
+    | .statusCheck _ => true
 
 /-! ### the module call graph: what can a mode reach? -/
 
